@@ -101,7 +101,7 @@ TLC_JAR = "/opt/veriftools/tla/tla2tools.jar:/opt/veriftools/tla/CommunityModule
 
 def tlc_cmd(module, cfg, workers=None, metadir=None, extra="", heap="8g", simulate=None):
     workers = workers or NCPU
-    return ("java -XX:+UseParallelGC -Xss256m -Xmx%s -cp %s tlc2.TLC -workers %s -metadir %s -config %s %s %s %s" %
+    return ("java -XX:+UseParallelGC -Xss512m -Xmx%s -cp %s tlc2.TLC -workers %s -metadir %s -config %s %s %s %s" %
             (heap, TLC_JAR, workers, metadir, cfg, ("-simulate " + simulate) if simulate else "", extra, module))
 
 
